@@ -72,7 +72,14 @@ Additions of the loop ties of C19 / C17, second wave (marked `[loop ties e2]`; a
                in X]` read for one item as `a1, .., an = E1, .., En`; spec key `dict_prelude=<prefix>` (loop specs): one top-level
                `name = {...}` dict display before the loop is translated in front of the iteration (a constant table)
   expressions: spec key `rows=[X, ..]`: `np.fromiter(map(F, X), np.float64[, n])` read for one row as F(this row's entry of X)
-  (already present before this wave and used by it: chained comparisons `a < b < c`, `e ** k` for k = 2..8, log lines dropped)"""
+  (already present before this wave and used by it: chained comparisons `a < b < c`, `e ** k` for k = 2..8, log lines dropped)
+Additions of the control-flow ties of C04 / C12 (marked `[loop ties e3]`; additive, fail-closed, both only under a spec key):
+  statements : spec key `inplace=['.m', ..]`: the statement `x.m(args)` (result discarded) on a plain name x, `.m` being a
+               function-typed parameter, is `x = x.m(args)` -- the method updates x in place, the function input gives the
+               object after the call (refused when x is aliased by a plain `y = x` / `x = y` anywhere in the function);
+               spec key `raising_calls=['f', ..]`: the statement `f(args)` (result discarded), f being a function-typed
+               parameter with result B read as "this call raises", is `raised__ = raised__ or f(args)` (raised__ is bound by
+               `init` and named in `returns`; the values computed after a raising call are those of the continuing path)"""
 import ast, os, sys, glob, importlib.util
 from fractions import Fraction
 
@@ -1053,6 +1060,25 @@ class FnTranslator:
                 continue
             if isinstance(s, ast.Expr) and isinstance(s.value, ast.Call) and ast.unparse(s.value.func).startswith('logging.'):
                 continue                              # a log line: no effect on any value
+            if getattr(self, 'inplace', None) and isinstance(s, ast.Expr) and isinstance(s.value, ast.Call) \
+                    and isinstance(s.value.func, ast.Attribute) and isinstance(s.value.func.value, ast.Name) \
+                    and '.' + s.value.func.attr in self.inplace:
+                # [loop ties e3] spec key `inplace=['.m', ..]`: the statement `x.m(args)` on a plain name x, for a method the spec
+                # declares as a function-typed parameter '.m' (otherwise call() refuses) AND lists in `inplace`: the method updates
+                # the object in place and its result is discarded -- in the value reading of objects (tables as ids) that is
+                # `x = x.m(args)`, the function input giving the object after the call.  function() refuses the spec when x is
+                # aliased by a plain `y = x` / `x = y` anywhere in the function (another name would not see the update).
+                out.append(ast.Assign(targets=[ast.Name(id=s.value.func.value.id, ctx=ast.Store())], value=s.value))
+                continue
+            if getattr(self, 'raising_calls', None) and isinstance(s, ast.Expr) and isinstance(s.value, ast.Call) \
+                    and ast.unparse(s.value.func) in self.raising_calls:
+                # [loop ties e3] spec key `raising_calls=['f', ..]`: the statement `f(args)` whose result is discarded, f a
+                # function-typed parameter with result B (checked in function()) read as "this call raises": recorded in the
+                # boolean `raised__` (bound by the spec's `init`, named in `returns`, like row_keep__): raised__ = raised__ or
+                # f(args).  What is computed afterwards are the values of the path on which no call raised.
+                both = ast.BoolOp(op=ast.Or(), values=[ast.Name(id='raised__', ctx=ast.Load()), s.value])
+                out.append(ast.Assign(targets=[ast.Name(id='raised__', ctx=ast.Store())], value=both))
+                continue
             if isinstance(s, ast.Expr) and isinstance(s.value, ast.Call) and isinstance(s.value.func, ast.Attribute) \
                     and s.value.func.attr == 'append' and isinstance(s.value.func.value, ast.Name) \
                     and len(s.value.args) == 1 and not s.value.keywords and getattr(self, 'yield_types', None) \
@@ -1937,6 +1963,20 @@ class FnTranslator:
         self.columns = sp.get('columns')             # [loop ties C05] see expr(), ListComp / np.apply_along_axis
         self.rows = sp.get('rows')                   # [loop ties e2] see call(): np.fromiter(map(F, X), ..) read per row
         self.items = sp.get('items')                 # [loop ties e2] see desugar(): X = [(E1, ..) for a1, .. in X] read per item
+        self.inplace = tuple(sp.get('inplace', ()))               # [loop ties e3] see desugar(): `x.m(args)` as `x = x.m(args)`
+        self.raising_calls = tuple(sp.get('raising_calls', ()))   # [loop ties e3] see desugar(): `f(args)` as raised__ = raised__ or f(args)
+        if self.inplace:
+            objs = {x.value.func.value.id for x in ast.walk(fnode)
+                    if isinstance(x, ast.Expr) and isinstance(x.value, ast.Call) and isinstance(x.value.func, ast.Attribute)
+                    and isinstance(x.value.func.value, ast.Name) and '.' + x.value.func.attr in self.inplace}
+            for x in ast.walk(fnode):
+                if isinstance(x, ast.Assign) and isinstance(x.value, ast.Name) and (
+                        x.value.id in objs or any(isinstance(t, ast.Name) and t.id in objs for t in x.targets)):
+                    raise Refuse('%s.%s: an object updated in place is aliased by `%s`; `inplace` does not apply'
+                                 % (self.rel, sp['name'], ast.unparse(x)))
+        for f in self.raising_calls:
+            if not any(p[0] == f and p[1].startswith('F:') and p[1].endswith('>B') for p in sp['params']):
+                raise Refuse('%s.%s: raising_calls: %s is not a function-typed parameter with result B' % (self.rel, sp['name'], f))
         for nm in self.attr_store_ok:
             for x in ast.walk(fnode):
                 if isinstance(x, ast.Assign) and isinstance(x.value, ast.Name) and (
